@@ -235,6 +235,12 @@ func (s *Server) verifyConsensusFieldMain(cp *params.CaravelParams, seedHeader *
 			"proposerTh", consensusData.ProposerThreshold, "validatorTh", consensusData.ValidatorThreshold)
 		return errInvalidConsensusData
 	}
+	// A proposer needs at least one seat. VrfVerifyPriority only checks that the declared
+	// seat count is the one the credential yields, and zero matches a losing credential.
+	if consensusData.SubUsers == 0 {
+		logging.Error("VerifyHeader failed. Proposer declares zero seats.", "Round", consensusData.Round)
+		return errInvalidConsensusData
+	}
 	// get block proposer's public key and VRF public key
 	pubKey, err := consensusData.GetPublicKey()
 	if err != nil {
